@@ -1034,8 +1034,8 @@ def _merge_guard_chain(stmts: list[S]) -> list[S]:
                 if e_exit:
                     tail = guard(mk_not(c), orelse, list(then)) + tail
                     continue
-            elif _ends_in_exit(then) and _ends_in_exit(tail) and _negative(c):
-                tail = guard(mk_not(c), tuple(tail), list(then))
+            elif _ends_in_exit(then) and _ends_in_exit(tail):
+                tail = guard(mk_not(c), tuple(tail), list(then)) if _negative(c) else guard(c, then, tail)
                 continue
         tail = [st] + tail
     out: list[S] = []
